@@ -33,6 +33,13 @@
                               `extend type …` *after* its description (an extension has none)
     composeUrlRaw             the URL of a composable directive is written between quotes as it is
                               (`url: "{}"`): no escaping at all
+    fedFieldsEverywhere       in a federation export fields named `_service` / `_entities` are left
+                              out of EVERY object and interface (`export_fields`), not only of
+                              the query root where the framework adds them: a user's field of
+                              that name vanishes, a type with no other field becomes `type T {}`
+    fedScalarAnyDropped       a federation export never defines a scalar named `Any`
+                              (`FEDERATION_SCALARS`; the crate's own federation scalar is `_Any`,
+                              left out by name in `export_sdl`): a user's scalar `Any` vanishes
 -/
 import AGV.Core.Sdl
 import AGV.Model.Print
@@ -50,13 +57,16 @@ structure Defects where
   dynInputFieldAttrsFromObject : Bool := false
   extendKeepsDescription : Bool := false
   composeUrlRaw : Bool := false
+  fedScalarAnyDropped : Bool := false
+  fedFieldsEverywhere : Bool := false
   deriving Repr, DecidableEq
 
 def Defects.none : Defects := {}
 def Defects.pinned : Defects :=
   { reasonQuoteRaw := true, descSingleLineRaw := true, descBlockRaw := true, tagQuoteOnly := true,
     interfaceDirectivesFirst := true, dynInterfaceImplementsDropped := true,
-    dynInputFieldAttrsFromObject := true, extendKeepsDescription := true, composeUrlRaw := true }
+    dynInputFieldAttrsFromObject := true, extendKeepsDescription := true, composeUrlRaw := true,
+    fedScalarAnyDropped := true, fedFieldsEverywhere := true }
 
 def s (x : String) : Text := x.toList
 
@@ -197,7 +207,7 @@ def writeArgs (D : Defects) (o : Opts) (needMulti : Bool) : Nat → List InputVa
     writeArgs D o needMulti (i + 1) rest
 
 def exportField (D : Defects) (o : Opts) (f : FieldDef) : Text :=
-  if startsWith2Underscores f.name || (o.federation && (f.name = s "_service" || f.name = s "_entities")) then []
+  if startsWith2Underscores f.name || (D.fedFieldsEverywhere && o.federation && (f.name = s "_service" || f.name = s "_entities")) then []
   else
     optDescription D o 1 f.a.desc ++
     (if !f.args.isEmpty then
@@ -235,7 +245,7 @@ def unionMembers : Nat → List Text → Text
 
 def exportType (D : Defects) (o : Opts) : TypeDef → Text
   | .scalar name a url =>
-    if systemScalars.contains name || (o.federation && federationScalars.contains name) then []
+    if systemScalars.contains name || (D.fedScalarAnyDropped && o.federation && federationScalars.contains name) then []
     else
       optDescription D o 0 a.desc ++ s "scalar " ++ name ++
         (match o.specifiedBy, url with
@@ -365,9 +375,25 @@ def composeSdl (D : Defects) (o : Opts) (g : Text × List Text) : Text :=
 def typeExported (o : Opts) (t : TypeDef) : Bool :=
   !startsWith2Underscores t.name && !(o.federation && federationTypes.contains t.name)
 
+/-- the query root in a federation export (`export_type`, `export_fields`): the fields
+    `_service` / `_entities` (which `create_federation_types` adds there) are not written, and a
+    root left with no field to write is not written at all.  (The code skips the fields while
+    writing; here they are removed beforehand.) -/
+def fedRoot (o : Opts) (q : Text) : TypeDef → Option TypeDef
+  | .object n a ext impls fs =>
+    if o.federation && n = q then
+      let fs' := fs.filter (fun f => !(f.name = s "_service" || f.name = s "_entities"))
+      if fs'.all (fun f => startsWith2Underscores f.name) then none else some (.object n a ext impls fs')
+    else some (.object n a ext impls fs)
+  | t => some t
+
+/-- the type definitions `export_sdl` writes, in its order -/
+def writtenTypes (S : Schema) (o : Opts) : List TypeDef :=
+  ((sortByName TypeDef.name S.types).filter (typeExported o)).filterMap (fedRoot o S.query)
+
 /-- `Registry::export_sdl`, with the compose groups in the order `gs` -/
 def exportSdlG (D : Defects) (S : Schema) (o : Opts) (gs : List (Text × List Text)) : Text :=
-  (((sortByName TypeDef.name S.types).filter (typeExported o)).map (exportType D o)).flatten ++
+  ((writtenTypes S o).map (exportType D o)).flatten ++
   (((allDirectives S).filter (directivePrinted S)).map (fun d => directiveSdl D o d ++ ['\n'])).flatten ++
   (if o.federation then
     s "extend schema @link(\n" ++ tab o ++ s "url: \"https://specs.apollo.dev/federation/v2.5\",\n" ++
